@@ -1,9 +1,209 @@
+import RsslVerif.Model.Elab
 import RsslVerif.Driver.Util
-/-! Line-protocol front end of the C03 model (stub until the model is built). -/
+/-! Line-protocol front end of the C03 model (`C03.conv`, `C03.prog`, `C03.type`); formats are described in
+`harness/src/c03.rs`. -/
 namespace RsslVerif.Driver.C03
+open RsslVerif.Gen.RankTable RsslVerif.Gen.TypingTables RsslVerif.Model.Conv RsslVerif.Model.Overload
+open RsslVerif.Model.IrTyping RsslVerif.Model.Elab RsslVerif.Driver
+
+def modLetters : List (Char × (Modifier → Modifier)) :=
+  [('c', fun m => { m with isConst := true }), ('v', fun m => { m with volatile := true }),
+   ('r', fun m => { m with rest := m.rest ||| 1 }), ('k', fun m => { m with rest := m.rest ||| 2 }),
+   ('u', fun m => { m with rest := m.rest ||| 4 }), ('n', fun m => { m with rest := m.rest ||| 8 })]
+
+def parseMods (s : String) : Option Modifier :=
+  if s == "-" then some {} else
+  s.toList.foldl (fun acc c => acc.bind fun m => (modLetters.lookup c).map (· m)) (some {})
+
+def showMods (m : Modifier) : String :=
+  let s := (if m.isConst then "c" else "") ++ (if m.volatile then "v" else "") ++
+    (if m.rest &&& 1 != 0 then "r" else "") ++ (if m.rest &&& 2 != 0 then "k" else "") ++
+    (if m.rest &&& 4 != 0 then "u" else "") ++ (if m.rest &&& 8 != 0 then "n" else "")
+  if s.isEmpty then "-" else s
+
+def parseLayer (s : String) : Option Layer :=
+  match s.splitOn "." with
+  | ["s", sc] => (Scalar.ofName? sc).map .scalar
+  | ["v", sc, n] => do pure (.vector (← Scalar.ofName? sc) (← n.toNat?))
+  | ["m", sc, x, y] => do pure (.matrix (← Scalar.ofName? sc) (← x.toNat?) (← y.toNat?))
+  | ["e", i] => i.toNat?.map .enum
+  | ["o", i] => i.toNat?.map .other
+  | _ => none
+
+def showLayer : Layer → String
+  | .scalar s => "s." ++ s.name
+  | .vector s n => "v." ++ s.name ++ "." ++ toString n
+  | .matrix s x y => "m." ++ s.name ++ "." ++ toString x ++ "." ++ toString y
+  | .enum i => "e." ++ toString i
+  | .other i => "o." ++ toString i
+
+def parseTy (s : String) : Option Ty :=
+  match s.splitOn "/" with
+  | [m, l] => do pure ⟨← parseMods m, ← parseLayer l⟩
+  | _ => none
+
+def showTy (t : Ty) : String := showMods t.mod ++ "/" ++ showLayer t.layer
+
+def parseETy (s : String) : Option ETy :=
+  match s.splitOn "/" with
+  | [vt, m, l] => do
+    let vt ← match vt with | "L" => some VT.lvalue | "R" => some VT.rvalue | _ => none
+    pure ⟨⟨← parseMods m, ← parseLayer l⟩, vt⟩
+  | _ => none
+
+def showETy (e : ETy) : String := (match e.vt with | .lvalue => "L" | .rvalue => "R") ++ "/" ++ showTy e.ty
+
+def parseParam (s : String) : Option Param :=
+  match s.splitOn "/" with
+  | [io, m, l] => do
+    let io ← match io with
+      | "in" => some InputModifier.in | "out" => some .out | "inout" => some .inOut | _ => none
+    pure ⟨⟨← parseMods m, ← parseLayer l⟩, io⟩
+  | _ => none
+
+def parseFunc (s : String) : Option FuncSig :=
+  match s.splitOn ":" with
+  | [name, nd, ret, ps] => do
+    let ps ← sequenceOpt ((if ps.isEmpty then [] else ps.splitOn ",").map parseParam)
+    pure ⟨← name.toNat?, ps, ← nd.toNat?, ← parseTy ret⟩
+  | _ => none
+
+def parseEnv (vars funcs ret : String) : Option Env := do
+  let vs ← sequenceOpt ((if vars == "-" then [] else vars.splitOn ",").map parseTy)
+  let fs ← sequenceOpt ((if funcs == "-" then [] else funcs.splitOn ";").map parseFunc)
+  let r ← if ret == "void" then some none else (parseTy ret).map some
+  pure { vars := vs, funcs := fs, ret := r }
+
+def convCell (src dst : ETy) : String :=
+  match find src dst with
+  | .error _ => "panic"
+  | .ok none => "err"
+  | .ok (some c) =>
+    match targetType c with
+    | .error _ => "panic"
+    | .ok t => showETy t
+
+/-! ## s-expressions -/
+
+inductive Sx where
+  | atom (s : String)
+  | list (l : List Sx)
+  deriving Inhabited
+
+def tokenize (s : String) : List String :=
+  let spaced := (s.replace "(" " ( ").replace ")" " ) "
+  (spaced.splitOn " ").filter (· ≠ "")
+
+/-- parses one s-expression from the token list; returns the rest -/
+partial def parseSx : List String → Option (Sx × List String)
+  | [] => none
+  | "(" :: rest =>
+    let rec items (acc : List Sx) : List String → Option (List Sx × List String)
+      | [] => none
+      | ")" :: r => some (acc.reverse, r)
+      | ts => match parseSx ts with
+        | some (x, r) => items (x :: acc) r
+        | none => none
+    (items [] rest).map fun (l, r) => (.list l, r)
+  | ")" :: _ => none
+  | t :: rest => some (.atom t, rest)
+
+def readSx (s : String) : Option Sx :=
+  match parseSx (tokenize s) with
+  | some (x, []) => some x
+  | _ => none
+
+partial def toSExpr : Sx → Option SExpr
+  | .list [.atom "lit", .atom k] => (Scalar.ofName? k).map .lit
+  | .list [.atom "var", .atom i] => i.toNat?.map .var
+  | .list [.atom "un", .atom o, e] => do pure (.un (← UnOp.ofName? o) (← toSExpr e))
+  | .list [.atom "bin", .atom o, a, b] => do pure (.bin (← BinOp.ofName? o) (← toSExpr a) (← toSExpr b))
+  | .list [.atom "tern", c, a, b] => do pure (.tern (← toSExpr c) (← toSExpr a) (← toSExpr b))
+  | .list (.atom "call" :: .atom n :: args) => do
+    let as ← sequenceOpt (args.map toSExpr)
+    pure (.call (← n.toNat?) (SArgs.ofList as))
+  | .list [.atom "cast", .atom t, e] => do pure (.cast (← parseTy t) (← toSExpr e))
+  | _ => none
+
+def toSStmt : Sx → Option SStmt
+  | .list [.atom "expr", e] => (toSExpr e).map .expr
+  | .list [.atom "ret"] => some (.ret none)
+  | .list [.atom "ret", e] => (toSExpr e).map fun x => .ret (some x)
+  | .list [.atom "init", .atom t, e] => do pure (.init (← parseTy t) (← toSExpr e))
+  | _ => none
+
+partial def toIExpr : Sx → Option IExpr
+  | .list [.atom "lit", .atom k] => (Scalar.ofName? k).map .lit
+  | .list [.atom "var", .atom i] => i.toNat?.map .var
+  | .list [.atom "tern", c, a, b] => do pure (.tern (← toIExpr c) (← toIExpr a) (← toIExpr b))
+  | .list [.atom "seq", a, b] => do pure (.seq (← toIExpr a) (← toIExpr b))
+  | .list (.atom "call" :: .atom f :: args) => do
+    let as ← sequenceOpt (args.map toIExpr)
+    pure (.call (← f.toNat?) (IArgs.ofList as))
+  | .list [.atom "cast", .atom t, e] => do pure (.cast (← parseTy t) (← toIExpr e))
+  | .list (.atom "op" :: .atom o :: args) => do
+    let as ← sequenceOpt (args.map toIExpr)
+    pure (.op (← IOp.ofName? o) (IArgs.ofList as))
+  | _ => none
+
+partial def showIExpr : IExpr → String
+  | .lit k => "(lit " ++ k.name ++ ")"
+  | .var i => "(var " ++ toString i ++ ")"
+  | .tern c a b => "(tern " ++ showIExpr c ++ " " ++ showIExpr a ++ " " ++ showIExpr b ++ ")"
+  | .seq a b => "(seq " ++ showIExpr a ++ " " ++ showIExpr b ++ ")"
+  | .call f args => "(call " ++ toString f ++ String.join (args.toList.map fun a => " " ++ showIExpr a) ++ ")"
+  | .cast t e => "(cast " ++ showTy t ++ " " ++ showIExpr e ++ ")"
+  | .op o args => "(op " ++ o.name ++ String.join (args.toList.map fun a => " " ++ showIExpr a) ++ ")"
+
+def showType (Γ : Env) (e : IExpr) : String :=
+  match typeOf Γ e with
+  | .ok t => showETy t
+  | .error _ => "panic"
+
+def showIStmt (Γ : Env) : IStmt → String
+  | .expr e => "(expr " ++ showIExpr e ++ ") : " ++ showType Γ e
+  | .ret none => "(ret) : void"
+  | .ret (some e) => "(ret " ++ showIExpr e ++ ") : " ++ showType Γ e
+  | .init t e => "(init " ++ showTy t ++ " " ++ showIExpr e ++ ") : " ++ showType Γ e
+
+/-- `intrinsics.rs: assert..` -> `intrinsics.rs` -/
+def panicFile (site : String) : String := (site.splitOn ":").headD "?"
+
+def showResult (Γ : Env) : Except Err IStmt → String
+  | .ok s => "accept " ++ showIStmt Γ s
+  | .error (.reject k) => "reject " ++ k
+  | .error (.panic s) => "panic " ++ panicFile s
+  | .error (.unsupported w) => "unsupported " ++ w
+
+/-- types of every node in pre-order, as `Expression::get_type` would give them -/
+partial def preorderTypes (Γ : Env) : IExpr → List String
+  | e@(.tern c a b) => showType Γ e :: (preorderTypes Γ c ++ preorderTypes Γ a ++ preorderTypes Γ b)
+  | e@(.seq a b) => showType Γ e :: (preorderTypes Γ a ++ preorderTypes Γ b)
+  | e@(.call _ args) => showType Γ e :: (args.toList.flatMap (preorderTypes Γ))
+  | e@(.cast _ x) => showType Γ e :: preorderTypes Γ x
+  | e@(.op _ args) => showType Γ e :: (args.toList.flatMap (preorderTypes Γ))
+  | e => [showType Γ e]
 
 def handle (op : String) (args : List String) : String :=
-  let _ := (op, args)
-  "unsupported-op"
+  match op, args with
+  | "C03.conv", [src, dsts] =>
+    match parseETy src, sequenceOpt ((dsts.splitOn " ").map parseETy) with
+    | some s, some ds => " ".intercalate (ds.map (convCell s))
+    | _, _ => "bad-request"
+  | "C03.prog", [vars, funcs, ret, stmt, _expect] =>
+    match parseEnv vars funcs ret, (readSx stmt).bind toSStmt with
+    | some Γ, some s => showResult Γ (elabStmt true Γ s)
+    | _, _ => "bad-request"
+  | "C03.type", [vars, funcs, ret, typed] =>
+    match parseEnv vars funcs ret, readSx typed with
+    | some Γ, some (.list (_ :: rest)) =>
+      match rest.getLast? with
+      | some (.list l) =>
+        match toIExpr (.list l) with
+        | some e => " ".intercalate (preorderTypes Γ e)
+        | none => "unsupported ir"
+      | _ => "void"
+    | _, _ => "bad-request"
+  | _, _ => "unsupported-op"
 
 end RsslVerif.Driver.C03
